@@ -261,18 +261,53 @@ def run_conv(_, rec):
             rec.violate(key, what, {"kind": "conv", "case": list(case)})
 
 
+# ---------------------------------------------------------------- the product leaves the floating-point range and comes back
+RECOVERY = [
+    ({"test": "alpha_mart", "estim": None, "bet": None, "kw": {"eta": "3/4"}, "u": "1", "t": "1/128", "N": None, "H": None, "k": 2, "ro": True}, 2, 0, 560),
+    ({"test": "wald_sprt", "estim": None, "bet": None, "kw": {"eta": "3/4"}, "u": "1", "t": "1/128", "N": None, "H": None, "k": 2, "ro": True}, 2, 0, 560),
+    ({"test": "kaplan_wald", "estim": None, "bet": None, "kw": {"g": "1/8"}, "u": "1", "t": "1/128", "N": None, "H": None, "k": 2, "ro": True}, 2, 0, 380),
+    ({"test": "alpha_mart", "estim": None, "bet": None, "kw": {"eta": "3/4"}, "u": "1", "t": "1/128", "N": None, "H": None, "k": 2, "ro": False}, 2, 0, 560),
+]
+
+
+def recovery_judge(cfg, up, down, n_up, n_down):
+    """n_up large draws take the product above the largest float, n_down small ones bring it back below 1 (no factor is 0
+    or infinite): every history entry is still min(1, 1/T_j) of the exact product"""
+    idx = (up,) * n_up + (down,) * n_down
+    g = s1.grid(cfg)
+    obs = s1.observe(cfg, [g[i] for i in idx])
+    return [(k + "|beyond-float-range", w + f" [{n_up} draws of {g[up]} then {n_down} of {g[down]}]") for k, w in judge(cfg, idx, obs)]
+
+
+def run_recovery(sh, rec):
+    _, i = sh
+    cfg, up, down, n_down = RECOVERY[i]
+    for n_up in (150, 160, 170):
+        rec.state()
+        rec.trans()
+        rec.evals()
+        rec.vac("products_leaving_the_float_range_and_returning")
+        for key, what in recovery_judge(cfg, up, down, n_up, n_down):
+            rec.violate(key, what[:400], {"kind": "recovery", "i": i, "n_up": n_up})
+
+
 def run_shard(sh, rec):
     if sh == "conv":
         run_conv(sh, rec)
+    elif isinstance(sh, tuple) and sh[0] == "recovery":
+        run_recovery(sh, rec)
     else:
         run_cfg(sh, rec)
 
 
 def explore(tier, seed):
-    return core.pmap(run_shard, ["conv"] + s1.configs(tier) + s1.long_configs(tier) + s1.bign_configs(tier) + s1.vlong_configs(tier), seed, progress="C12")
+    return core.pmap(run_shard, ["conv"] + [("recovery", i) for i in range(len(RECOVERY))] + s1.configs(tier) + s1.long_configs(tier) + s1.bign_configs(tier) + s1.vlong_configs(tier), seed, progress="C12")
 
 
 def run_case(case):
+    if case["kind"] == "recovery":
+        cfg, up, down, n_down = RECOVERY[case["i"]]
+        return recovery_judge(cfg, up, down, case["n_up"], n_down)
     if case["kind"] == "edge":
         return edge_equiv_judge(case["u"], case["t100"], case["xs"])
     if case["kind"] == "conv":
